@@ -799,3 +799,124 @@ def regenerate(eng=None):
             f.write(text)
         return "rewritten (%d bytes)" % len(text)
     return "unchanged (%d bytes)" % len(text)
+
+
+# =============================================================================================
+# self test and evidence
+# =============================================================================================
+# (name, file, old text, new text, count): deliberate edits of the source TEXT; each must change the translation (or be refused)
+EDITS = [
+    ("acorr-index-sign", "lazy_analysis.py", "blk[n] * blk[n + tau]", "blk[n] * blk[n - tau]"),
+    ("lag_matrix-guard-comparison", "lazy_analysis.py", "elif max_lag >= len(blk):", "elif max_lag > len(blk):"),
+    ("lag_matrix-range-start", "lazy_analysis.py", "for n in xrange(max_lag, len(blk))", "for n in xrange(max_lag + 1, len(blk))"),
+    ("toeplitz-abs-argument", "lazy_lpc.py", "[[vect[abs(i-j)]", "[[vect[abs(i+j)]"),
+    ("levinson-loop-bound", "lazy_lpc.py", "for m in xrange(1, order + 1):", "for m in xrange(1, order):"),
+    ("levinson-statements-reordered", "lazy_lpc.py",
+     "      B = A(1 / z) * z ** -m\n      A -= inner(A, z ** -m) / inner(B, B) * B\n",
+     "      A -= inner(A, z ** -m) / inner(B, B) * B\n      B = A(1 / z) * z ** -m\n"),
+    ("levinson-zero-extension-dropped", "lazy_lpc.py", "Stream(acdata).append(0).take(order + 1)",
+     "Stream(acdata).take(order + 1)"),
+    ("levinson-error-from-B", "lazy_lpc.py", "  A.error = inner(A, A)\n  return A\n\n\nlpc = ", "  A.error = inner(A, B)\n  return A\n\n\nlpc = "),
+    ("kautocor-order-dropped", "lazy_lpc.py", "return levinson_durbin(acorr(blk, order), order)",
+     "return levinson_durbin(acorr(blk, order))"),
+    ("kcovar-stability-comparison", "lazy_lpc.py", "if k >= 1 or k <= -1:", "if k > 1 or k < -1:"),
+    ("kcovar-update-sign", "lazy_lpc.py", "A += k * B[m - 1]", "A -= k * B[m - 1]"),
+    ("kcovar-gamma-range", "lazy_lpc.py", "/ beta[q] for q in xrange(m)]", "/ beta[q] for q in xrange(m + 1)]"),
+]
+# edits that must NOT change the translation (comments, docstrings, messages, blank lines)
+HARMLESS = [
+    ("comment", "lazy_lpc.py", "# Be careful, this depends on acdata !!!", "# closure over acdata"),
+    ("exception-message", "lazy_lpc.py", "\"Can't find next PARCOR coefficient\"", "\"no next coefficient\""),
+    ("docstring", "lazy_analysis.py", "Calculate the autocorrelation of a given 1-D block sequence.", "Autocorrelation."),
+]
+TRANSLATED = {
+    "lazy_analysis.acorr": "shallow: Gen.acorr = Model acorr (src_acorr_is_model)",
+    "lazy_analysis.lag_matrix": "shallow: Gen.lag_matrix = Model lagMatrix (src_lag_matrix_is_model)",
+    "lazy_lpc.toeplitz": "shallow: Gen.toeplitz = Model toeplitz (src_toeplitz_is_model)",
+    "lazy_lpc.levinson_durbin": "shallow: closure inner = Model inner (src_levinson_inner_is_model); default order, zero "
+                                "extension, for-loop under except ZeroDivisionError -> ParCorError, .error = Model levinson "
+                                "(src_levinson_durbin_is_model)",
+    "lazy_lpc.lpc.kautocor": "shallow: Gen.lpc_kautocor = Model kautocor (src_kautocor_is_model)",
+    "lazy_lpc.lpc.kcovar": "shallow: closure inner, the while-True loop as a fuel recursion with the comparisons of the "
+                           "stability test as emitted predicates = Model kcovar (src_kcovar_*_is_model)",
+    "lazy_lpc @lpc.strategy names": "table: Gen.strategyNames = Model strategyNames (src_strategy_names_is_model, decide)",
+}
+NOT_TRANSLATED = {
+    "lazy_lpc.lpc.autocor (default strategy)": "dispatch on `order < 100` with try/except ParCorError around calls of the numpy "
+                                               "strategy: modelled by hand in Model/C10Call (np is a parameter)",
+    "lazy_lpc.lpc.nautocor / lpc.covar": "numpy bodies (matrix, pinv): neither modelled nor run (numpy absent)",
+    "ZFilter / Poly arithmetic, Stream.append / take": "classes outside the slice: mapped to the vocabulary of "
+                                                       "Model/C10Py.lean (coefficient lists), trusted, tied differentially",
+    "call layer (spellings of order / max_lag: negative, bool, float, Fraction)": "Python's dynamic typing of the argument: "
+                                                                                 "hand-written Model/C10Call, tied by cases",
+}
+
+
+def _edited(sources, fname, old, new):
+    text = sources[fname]
+    if text.count(old) < 1:
+        return None
+    out = dict(sources)
+    out[fname] = text.replace(old, new, 1)
+    return out
+
+
+def _committed():
+    import subprocess
+    r = subprocess.run(["git", "-C", common.VERIF, "show", "HEAD:lean/" + GEN_REL.replace(os.sep, "/")],
+                       capture_output=True, text=True, timeout=30)
+    return r.stdout if r.returncode == 0 else None
+
+
+def extra_checks(eng):
+    if eng is not None:
+        eng.extra["translated"] = {"translator": "harness/props/c10_tr.py -> lean/" + GEN_REL.replace(os.sep, "/"),
+                                   "under_translator": TRANSLATED, "not_translated": NOT_TRANSLATED}
+    try:
+        sources = read_sources()
+        base = translate(sources)
+    except Exception as e:
+        yield ("translator-selftest", False, "the source of the repo under test is not translatable: %s" % e)
+        return
+    committed = _committed()
+    on_disk = open(os.path.join(common.LEAN, GEN_REL)).read()
+    same = committed is not None and base == committed
+    yield ("translator-reproduces-committed-file", same and on_disk == base,
+           "ok" if same and on_disk == base else
+           "the translation of %s differs from the committed lean/%s: the source of a translated function changed"
+           % (common.REPO, GEN_REL))
+    bad, absent, refused, changed = [], [], 0, 0
+    for name, fname, old, new in EDITS:
+        ed = _edited(sources, fname, old, new)
+        if ed is None:
+            absent.append(name)
+            continue
+        try:
+            t = translate(ed)
+        except TranslationError:
+            refused += 1
+            continue
+        except Exception as e:          # an edit must be refused as a TranslationError, not crash the translator
+            bad.append("%s: %s" % (name, type(e).__name__))
+            continue
+        if t == base:
+            bad.append(name + ": same translation")
+        else:
+            changed += 1
+    for name, fname, old, new in HARMLESS:
+        ed = _edited(sources, fname, old, new)
+        if ed is None:
+            absent.append(name)
+            continue
+        try:
+            if translate(ed) != base:
+                bad.append(name + ": harmless edit changes the translation")
+        except Exception as e:
+            bad.append("%s: %s" % (name, e))
+    # the anchors of the edits are texts of the committed source: on the clean tree none may be absent
+    ok = not bad and (not absent or not same)
+    yield ("translator-selftest", ok,
+           "%d edits change the translation, %d refused (TranslationError), %d harmless edits leave it unchanged%s%s"
+           % (changed, refused, len(HARMLESS) - sum(1 for h in HARMLESS if h[0] in absent),
+              "; anchors absent from this source: %s" % ", ".join(absent) if absent else "",
+              "; FAILED: %s" % "; ".join(bad) if bad else ""))
